@@ -885,40 +885,58 @@ func (self *PathNode) should2(op string, t thrift.Type, t2 thrift.Type) *PathNod
 	return nil
 }
 
+// The hash table occupies the first N slots of next; probing wraps around inside it.
 func getStrHash(next *[]PathNode, key string, N int) *PathNode {
+	base := *(*unsafe.Pointer)(unsafe.Pointer(next))
 	h := int(caching.StrHash(key) % uint64(N))
-	s := (*PathNode)(rt.IndexPtr(*(*unsafe.Pointer)(unsafe.Pointer(next)), sizePathNode, h))
-	for s.Path.t == PathStrKey {
+	for i := 0; i < N; i++ {
+		s := (*PathNode)(rt.IndexPtr(base, sizePathNode, h))
+		if s.Path.t != PathStrKey {
+			return nil
+		}
 		if s.Path.str() == key {
 			return s
 		}
 		h = (h + 1) % N
-		s = (*PathNode)(unsafe.Pointer(uintptr(unsafe.Pointer(s)) + sizePathNode))
 	}
 	return nil
 }
 
 func seekIntHash(next unsafe.Pointer, key uint64, N int) int {
 	h := int(key % uint64(N))
-	s := (*PathNode)(rt.IndexPtr(next, sizePathNode, h))
-	for s.Path.t != 0 {
+	for i := 0; i < N; i++ {
+		s := (*PathNode)(rt.IndexPtr(next, sizePathNode, h))
+		if s.Path.t == 0 {
+			break
+		}
 		h = (h + 1) % N
-		s = (*PathNode)(rt.AddPtr(unsafe.Pointer(s), sizePathNode))
 	}
 	return h
 }
 
 func getIntHash(next *[]PathNode, key uint64, N int) *PathNode {
+	base := *(*unsafe.Pointer)(unsafe.Pointer(next))
 	h := int(key % uint64(N))
-	s := (*PathNode)(rt.IndexPtr(*(*unsafe.Pointer)(unsafe.Pointer(next)), sizePathNode, h))
-	for s.Path.t == PathIntKey {
+	for i := 0; i < N; i++ {
+		s := (*PathNode)(rt.IndexPtr(base, sizePathNode, h))
+		if s.Path.t != PathIntKey {
+			return nil
+		}
 		if uint64(s.Path.int()) == key {
 			return s
 		}
 		h = (h + 1) % N
-		s = (*PathNode)(rt.AddPtr(unsafe.Pointer(s), sizePathNode))
 	}
 	return nil
+}
+
+// hashSize tells the size of the hash table the children were stored in by scanChildren (0 if none).
+func (self *PathNode) hashSize() int {
+	n, _ := self.Node.len()
+	if n <= StoreChildrenByIntHashShreshold || cap(self.Next) < n*2 {
+		return 0
+	}
+	return n * 2
 }
 
 // GetByInt get the child node by string. Only support MAP with string-type key.
@@ -934,10 +952,8 @@ func (self *PathNode) GetByStr(key string, opts *Options) *PathNode {
 	}
 	// fast path: use hash to find the key.
 	if opts.StoreChildrenByHash {
-		n, _ := self.Node.len()
-		N := n * 2
 		// TODO: cap may change after Set. Use better way to store hash size
-		if cap(self.Next) >= N {
+		if N := self.hashSize(); N > 0 {
 			if s := getStrHash(&self.Next, key, N); s != nil {
 				return s
 			}
@@ -967,10 +983,8 @@ func (self *PathNode) SetByStr(key string, val Node, opts *Options) (bool, error
 	}
 	// fast path: use hash to find the key.
 	if opts.StoreChildrenByHash {
-		n, _ := self.Node.len()
-		N := n * 2
 		// TODO: cap may change after Set. Use better way to store hash size
-		if cap(self.Next) >= N {
+		if N := self.hashSize(); N > 0 {
 			if s := getStrHash(&self.Next, key, N); s != nil {
 				s.Node = val
 				return true, nil
@@ -1006,9 +1020,7 @@ func (self *PathNode) GetByInt(key int, opts *Options) *PathNode {
 	// fast path: use hash to find the key.
 	if opts.StoreChildrenByHash {
 		// TODO: size may change after Set. Use better way to store hash size
-		n, _ := self.Node.len()
-		N := n * 2
-		if cap(self.Next) >= N {
+		if N := self.hashSize(); N > 0 {
 			if s := getIntHash(&self.Next, uint64(key), N); s != nil {
 				return s
 			}
@@ -1038,9 +1050,7 @@ func (self *PathNode) SetByInt(key int, val Node, opts *Options) (bool, error) {
 	}
 	// fast path: use hash to find the key.
 	if opts.StoreChildrenByHash {
-		n, _ := self.Node.len()
-		N := n * 2
-		if cap(self.Next) >= N {
+		if N := self.hashSize(); N > 0 {
 			if s := getIntHash(&self.Next, uint64(key), N); s != nil {
 				s.Node = val
 				return true, nil
@@ -1197,6 +1207,13 @@ func (self *PathNode) scanChildren(p *thrift.BinaryProtocol, recurse bool, opts 
 				// NOTE: we use original count*2 as the capacity of the hash table.
 				N = size * 2
 				guardPathNodeSlice(&con, N-1)
+				// the table region may be dirty from a previous use of this slice
+				con = con[:N]
+				for i := range con {
+					con[i].Path = Path{}
+					con[i].Node = Node{}
+					con[i].Next = con[i].Next[:0]
+				}
 				conAddr = *(*unsafe.Pointer)(unsafe.Pointer(&con))
 				c = N
 			}
@@ -1221,6 +1238,13 @@ func (self *PathNode) scanChildren(p *thrift.BinaryProtocol, recurse bool, opts 
 				// NOTE: we use original count*2 as the capacity of the hash table.
 				N = size * 2
 				guardPathNodeSlice(&con, N-1)
+				// the table region may be dirty from a previous use of this slice
+				con = con[:N]
+				for i := range con {
+					con[i].Path = Path{}
+					con[i].Node = Node{}
+					con[i].Next = con[i].Next[:0]
+				}
 				conAddr = *(*unsafe.Pointer)(unsafe.Pointer(&con))
 				c = N
 			}
